@@ -20,7 +20,7 @@ from .c01 import draw_fmt, fmt_tag
 ID = "C14"
 PROBES = ['probe_sites_alternate', 'probe_reevaluated_argument', 'sites_judged']  # reach probes: counters that must be non-zero in a run (a zero is printed and recorded)
 LEVEL = "exploration"
-BUDGET = {"quick": 1200, "thorough": 50000}
+BUDGET = {"quick": 1200, "thorough": 30000}
 WALL = {"quick": 240, "thorough": 3000}
 TECHNIQUE = "deterministic simulation: seeded scheduler interleaves the evaluations of n call sites; two schedules per case compared (metamorphic) and checked against a per-site reference model"
 LEVEL_TEXT = ("seeded search over programs with up to 8 call sites (same function, lambda bodies, module level shared by tests, twin files with "
